@@ -63,8 +63,8 @@ def mid_part(ck):
         if not thorough and metric != "ENERGY_DELAY_PRODUCT":
             continue
         # the world families in which C08 separates pruning objectives (memory-bound, leaky inner memory)
-        worlds = c07.worlds_for(ck, 3 if not thorough else 8, 140 + 300 * (mi != 2))[:-1] + \
-            c08.leaky_worlds(ck, 1 if not thorough else 3, 230 + 300 * (mi != 2))
+        worlds = c07.worlds_for(ck, 3 if not thorough else 5, 140 + 300 * (mi != 2))[:-1] + \
+            c08.leaky_worlds(ck, 1 if not thorough else 2, 230 + 300 * (mi != 2))
         outs = tc.collect(ck, worlds, (metric,))
         tcases, index, verdicts = tc.execute_all(ck, worlds, outs, "c01mid_%d" % mi)
         mapped = mc.run_mapper(ck, [(w, (metric,), None, True) for w in worlds])
